@@ -1115,11 +1115,153 @@ func (in *inliner) stmt(s ast.Stmt, within *types.Func) ([]ast.Stmt, bool) {
 		}
 		return []ast.Stmt{s}, false
 	}
+	// go h(args) / defer h(args) with a new named function: the same statement on a literal that holds h's body
+	switch x := s.(type) {
+	case *ast.GoStmt:
+		if lit := in.bodyLiteral(x.Call, within); lit != nil {
+			cp := *x
+			cp.Call = lit
+			return []ast.Stmt{&cp}, true
+		}
+	case *ast.DeferStmt:
+		if lit := in.bodyLiteral(x.Call, within); lit != nil {
+			cp := *x
+			cp.Call = lit
+			return []ast.Stmt{&cp}, true
+		}
+	}
 	// expression-level expansion inside any other statement
 	if ns, ch := in.exprsIn(s, within); ch {
 		return []ast.Stmt{ns}, true
 	}
 	return []ast.Stmt{s}, false
+}
+
+// bodyLiteral: for a call h(args) of a new declared function in a go/defer statement, the call `func(params){ body }(args')`
+// that does the same: h's body in a literal. Arguments that are plain variables never assigned in the calling function after
+// their definition are written into the body (so that the body talks about the caller's variables, as a goroutine literal
+// would); all others stay arguments of the literal, evaluated where the go/defer statement is.
+func (in *inliner) bodyLiteral(call *ast.CallExpr, within *types.Func) *ast.CallExpr {
+	if call.Ellipsis.IsValid() {
+		return nil
+	}
+	f := callee(in.info, call)
+	if f == nil {
+		return nil
+	}
+	f = f.Origin()
+	fd := in.decls[f]
+	if !in.fresh[f] || f == within || fd == nil || fd.Body == nil || in.state[f] == 1 {
+		return nil
+	}
+	in.normalise(f)
+	sig := f.Type().(*types.Signature)
+	if sig.Variadic() || len(call.Args) != sig.Params().Len() {
+		return nil
+	}
+	wfd := in.decls[within]
+	stableVar := func(e ast.Expr) bool {
+		id, ok := unparen(e).(*ast.Ident)
+		if !ok || wfd == nil {
+			return false
+		}
+		v, isV := in.info.Uses[id].(*types.Var)
+		if !isV || v.IsField() {
+			return false
+		}
+		n := 0
+		ast.Inspect(wfd.Body, func(m ast.Node) bool {
+			switch s := m.(type) {
+			case *ast.AssignStmt:
+				for _, l := range s.Lhs {
+					if sameVar(in.info, l, v) {
+						n++
+					}
+				}
+			case *ast.IncDecStmt:
+				if sameVar(in.info, s.X, v) {
+					n += 2
+				}
+			case *ast.UnaryExpr:
+				if s.Op == token.AND && sameVar(in.info, s.X, v) {
+					n += 2
+				}
+			case *ast.RangeStmt:
+				for _, e := range []ast.Expr{s.Key, s.Value} {
+					if e != nil && sameVar(in.info, e, v) {
+						n += 2
+					}
+				}
+			}
+			return true
+		})
+		return n <= 1
+	}
+	subst := map[types.Object]ast.Expr{}
+	var params []*types.Var
+	var fields []*ast.Field
+	var args []ast.Expr
+	pass := func(p *types.Var, arg ast.Expr) {
+		if p.Name() == "_" || p.Name() == "" {
+			return
+		}
+		if stableVar(arg) && !assignedIn(in.info, fd.Body, p) {
+			subst[p] = arg
+			return
+		}
+		id := &ast.Ident{NamePos: call.Pos(), Name: p.Name()}
+		in.info.Defs[id] = p
+		fields = append(fields, &ast.Field{Names: []*ast.Ident{id}, Type: typeExprPlaceholder(in.info, p.Type(), call.Pos())})
+		params = append(params, p)
+		args = append(args, arg)
+	}
+	if r := sig.Recv(); r != nil {
+		sel, ok := unparen(call.Fun).(*ast.SelectorExpr)
+		if !ok {
+			return nil
+		}
+		s := in.info.Selections[sel]
+		if s == nil || s.Kind() != types.MethodVal {
+			return nil
+		}
+		recv := ast.Expr(sel.X)
+		if len(s.Index()) > 1 {
+			recv = in.explicitRecv(sel, s)
+			if recv == nil {
+				return nil
+			}
+		}
+		if _, wantPtr := r.Type().(*types.Pointer); wantPtr {
+			if tv, has := in.info.Types[recv]; has {
+				if _, isPtr := tv.Type.Underlying().(*types.Pointer); !isPtr {
+					return nil
+				}
+			}
+		}
+		pass(r, recv)
+	}
+	for i, a := range call.Args {
+		pass(sig.Params().At(i), a)
+	}
+	cp := &copier{info: in.info, subst: subst}
+	body := cp.node(fd.Body).(*ast.BlockStmt)
+	lit := &ast.FuncLit{Type: &ast.FuncType{Func: call.Pos(), Params: &ast.FieldList{List: fields}}, Body: body}
+	in.info.Types[lit] = types.TypeAndValue{Type: types.NewSignatureType(nil, nil, nil, types.NewTuple(params...), sig.Results(), false)}
+	in.litDone[lit] = true
+	out := &ast.CallExpr{Fun: lit, Lparen: call.Lparen, Args: args, Rparen: call.Rparen}
+	if tv, has := in.info.Types[call]; has {
+		in.info.Types[out] = tv
+	}
+	in.count++
+	return out
+}
+
+// typeExprPlaceholder: an identifier standing for type t in a synthesised parameter list (carries the type, is never resolved
+// by name).
+func typeExprPlaceholder(info *types.Info, t types.Type, pos token.Pos) ast.Expr {
+	id := &ast.Ident{NamePos: pos, Name: "_T"}
+	info.Types[id] = types.TypeAndValue{Type: t}
+	return id
 }
 
 func (in *inliner) clauses(b *ast.BlockStmt, within *types.Func) (*ast.BlockStmt, bool) {
@@ -1157,6 +1299,113 @@ func (in *inliner) clauses(b *ast.BlockStmt, within *types.Func) (*ast.BlockStmt
 
 // expr replaces calls of expression-only callees (`return e`) inside e.
 func (in *inliner) expr(e ast.Expr, within *types.Func) (ast.Expr, bool) {
+	if e == nil {
+		return e, false
+	}
+	if ne, ch := in.methodValues(e, within); ch {
+		e2, _ := in.exprCalls(ne, within)
+		return e2, true
+	}
+	return in.exprCalls(e, within)
+}
+
+// methodValues: x.m used as a value (not called) where m is a new method — the closure func(params) { m's body with the
+// receiver written in } when x is a plain variable that is not reassigned in the function; that is what the method value does.
+func (in *inliner) methodValues(e ast.Expr, within *types.Func) (ast.Expr, bool) {
+	called := map[ast.Expr]bool{}
+	var cands []*ast.SelectorExpr
+	ast.Inspect(e, func(n ast.Node) bool {
+		switch x := n.(type) {
+		case *ast.FuncLit:
+			return false
+		case *ast.CallExpr:
+			called[unparen(x.Fun)] = true
+		case *ast.SelectorExpr:
+			if s := in.info.Selections[x]; s != nil && s.Kind() == types.MethodVal && !called[x] && len(s.Index()) == 1 {
+				if f, isF := s.Obj().(*types.Func); isF && in.fresh[f.Origin()] && f.Origin() != within {
+					cands = append(cands, x)
+				}
+			}
+		}
+		return true
+	})
+	if len(cands) == 0 {
+		return e, false
+	}
+	wfd := in.decls[within]
+	repl := map[*ast.SelectorExpr]ast.Expr{}
+	for _, sel := range cands {
+		f := in.info.Selections[sel].Obj().(*types.Func).Origin()
+		fd := in.decls[f]
+		if fd == nil || fd.Body == nil || in.state[f] == 1 || wfd == nil {
+			continue
+		}
+		in.normalise(f)
+		sig := f.Type().(*types.Signature)
+		if sig.Variadic() {
+			continue
+		}
+		id, isID := unparen(sel.X).(*ast.Ident)
+		if !isID {
+			continue
+		}
+		rv, isV := in.info.Uses[id].(*types.Var)
+		if !isV || rv.IsField() || assignedIn(in.info, fd.Body, sig.Recv()) {
+			continue
+		}
+		// the receiver variable keeps its value: at most its definition assigns it, its address is not taken
+		n := 0
+		ast.Inspect(wfd.Body, func(m ast.Node) bool {
+			switch s := m.(type) {
+			case *ast.AssignStmt:
+				for _, l := range s.Lhs {
+					if sameVar(in.info, l, rv) {
+						n++
+					}
+				}
+			case *ast.UnaryExpr:
+				if s.Op == token.AND && sameVar(in.info, s.X, rv) {
+					n += 2
+				}
+			}
+			return true
+		})
+		if n > 1 {
+			continue
+		}
+		// value receivers copy at the time the method value is taken: only pointer receivers (or pointer-typed variables)
+		if _, wantPtr := sig.Recv().Type().(*types.Pointer); !wantPtr {
+			continue
+		}
+		if _, isPtr := rv.Type().Underlying().(*types.Pointer); !isPtr {
+			continue
+		}
+		var fields []*ast.Field
+		for i := 0; i < sig.Params().Len(); i++ {
+			p := sig.Params().At(i)
+			pid := &ast.Ident{NamePos: sel.Pos(), Name: p.Name()}
+			if p.Name() == "" {
+				pid.Name = "_"
+			}
+			in.info.Defs[pid] = p
+			fields = append(fields, &ast.Field{Names: []*ast.Ident{pid}, Type: typeExprPlaceholder(in.info, p.Type(), sel.Pos())})
+		}
+		cp := &copier{info: in.info, subst: map[types.Object]ast.Expr{sig.Recv(): sel.X}}
+		lit := &ast.FuncLit{Type: &ast.FuncType{Func: sel.Pos(), Params: &ast.FieldList{List: fields}}, Body: cp.node(fd.Body).(*ast.BlockStmt)}
+		in.info.Types[lit] = types.TypeAndValue{Type: types.NewSignatureType(nil, nil, nil, sig.Params(), sig.Results(), false)}
+		in.litDone[lit] = true
+		repl[sel] = lit
+		in.count++
+	}
+	if len(repl) == 0 {
+		return e, false
+	}
+	cp := &copier{info: in.info, subst: map[types.Object]ast.Expr{}}
+	cp.onSelector = func(s *ast.SelectorExpr) ast.Expr { return repl[s] }
+	return cp.node(e).(ast.Expr), true
+}
+
+func (in *inliner) exprCalls(e ast.Expr, within *types.Func) (ast.Expr, bool) {
 	if e == nil {
 		return e, false
 	}
@@ -1242,12 +1491,13 @@ func (in *inliner) exprsIn(s ast.Stmt, within *types.Func) (ast.Stmt, bool) {
 // copier deep-copies a sub-tree, replacing identifiers that denote substituted objects and propagating the type information of
 // every copied node.
 type copier struct {
-	info     *types.Info
-	subst    map[types.Object]ast.Expr
-	onCall   func(*ast.CallExpr) ast.Expr
-	onReturn func(*ast.ReturnStmt) ast.Stmt // replaces return statements (not inside function literals)
-	inLit    int
-	rename   map[types.Object]types.Object // callee local → the caller's variable it becomes
+	info       *types.Info
+	subst      map[types.Object]ast.Expr
+	onCall     func(*ast.CallExpr) ast.Expr
+	onReturn   func(*ast.ReturnStmt) ast.Stmt // replaces return statements (not inside function literals)
+	onSelector func(*ast.SelectorExpr) ast.Expr
+	inLit      int
+	rename     map[types.Object]types.Object // callee local → the caller's variable it becomes
 }
 
 var astNodeType = reflect.TypeOf((*ast.Node)(nil)).Elem()
@@ -1275,6 +1525,11 @@ func (cp *copier) node(n ast.Node) ast.Node {
 	}
 	if r, ok := n.(*ast.ReturnStmt); ok && cp.onReturn != nil && cp.inLit == 0 {
 		return cp.onReturn(r)
+	}
+	if s, ok := n.(*ast.SelectorExpr); ok && cp.onSelector != nil {
+		if e := cp.onSelector(s); e != nil {
+			return e
+		}
 	}
 	if _, ok := n.(*ast.FuncLit); ok {
 		cp.inLit++
